@@ -201,8 +201,10 @@ def run(ck):
         cut = (i % 4 == 1)
         model = xr.xRFM(rfm_params=xr.default_rfm_params(iters=1, reg=1e-2), max_leaf_size=L, verbose=False, tuning_metric=metric,
                         temp_tuning_space=space, n_trees=(3 if cut else 1 + i % 2), classification_mode=['zero_one', 'prevalence'][i % 2],
+                        # every third fit: non-default ensemble settings — a single leaf kept (cap 1 / keep fraction 0.2) or a cap of 2 on trees with >= 3 leaves
+                        **(dict(max_leaf_count_in_ensemble=[1, 2, 12][(i // 3) % 3], keep_weight_frac_in_predict=[0.99, 0.2, 0.6][(i // 3) % 3]) if i % 3 == 2 else {}),
                         **(dict(time_limit_s=0) if cut else {}))
-        desc = dict(i=i, task=task, metric=metric, n=n, L=L, space=space, n_trees=(3 if cut else 1 + i % 2), time_limit_s=(0 if cut else None), seed=ck.seed)
+        desc = dict(i=i, task=task, metric=metric, n=n, L=L, space=space, n_trees=(3 if cut else 1 + i % 2), time_limit_s=(0 if cut else None), cap=model.max_leaf_count_in_ensemble, keep=model.keep_weight_frac_in_predict, seed=ck.seed)
         try:
             with xr.quiet():
                 model.fit(torch.tensor(X), torch.tensor(y), torch.tensor(Xv), torch.tensor(yv))
